@@ -316,6 +316,9 @@ func (fr *Frame) loopHead(li *loopInfo, b *ssa.BasicBlock, phis []*ssa.Phi, pred
 		entryPhi[p] = fr.mergePhi(p, b, preds, conds)
 	}
 	li.preSt = st
+	if fc.relMode {
+		li.relEntry = &relPoint{vals: entryPhi, st: st, cond: fr.reach[b]}
+	}
 	// 1. invariants hold on entry
 	if fr.isTop {
 		env := fr.specEnv(st, b, entryPhi)
@@ -369,6 +372,28 @@ func (fr *Frame) loopHead(li *loopInfo, b *ssa.BasicBlock, phis []*ssa.Phi, pred
 			fc.assume(sImp(fr.reach[b], f), "invariant "+c.Text)
 		}
 	}
+	if fc.relMode {
+		hv := map[*ssa.Phi]Val{}
+		for _, p := range phis {
+			hv[p] = fr.vals[p]
+		}
+		li.relHead = &relPoint{vals: hv, st: nst, cond: fr.reach[b]}
+		// right run: the relational invariants relate its loop head to the left run's
+		if fc.relLeft != nil && fr != fc.relLeft {
+			for i, ll := range fc.relLeft.loops {
+				if i < len(fr.loops) && fr.loops[i] == li && ll.relHead != nil {
+					envL := fc.relLeft.specEnv(ll.relHead.st, ll.head, ll.relHead.vals)
+					envR := fr.specEnv(nst, b, hv)
+					re := &Env{fc: fc, names: map[string]Val{}, state: nst, old: fc.entry, pkg: fc.g.pkg.Pkg, errs: &fc.errs, relL: envL, relR: envR}
+					for _, c := range fc.spec.RelInvs {
+						if c.Loop == li.ord {
+							fc.assume(sImp(sAnd(ll.relHead.cond, fr.reach[b]), re.bool(c.Expr)), "relational invariant "+c.Text)
+						}
+					}
+				}
+			}
+		}
+	}
 	return nst
 }
 
@@ -395,6 +420,9 @@ func (fr *Frame) backEdge(b, h *ssa.BasicBlock, cond string, st *State) {
 		} else {
 			break
 		}
+	}
+	if fc.relMode {
+		li.relLatch = append(li.relLatch, &relPoint{vals: over, st: st, cond: cond})
 	}
 	env := fr.specEnv(st, h, over)
 	env.loopPre = li.preSt
@@ -757,6 +785,9 @@ func (fr *Frame) instr(in ssa.Instruction, b *ssa.BasicBlock, st *State) *State 
 			}
 			fc.regArr(arr, "(Array Int Int)")
 			st2 = st2.store(arr, sx("store", st2.get(arr), ref, "0"))
+			if dom, _, ks, _ := fc.mapArrs(mm.Type(), ref); dom != "" {
+				st2 = st2.store(dom, sx("store", st2.get(dom), ref, sx("(as const (Array "+ks+" Bool))", "false")))
+			}
 		}
 		return st2
 	case *ssa.MakeClosure:
@@ -777,7 +808,16 @@ func (fr *Frame) instr(in ssa.Instruction, b *ssa.BasicBlock, st *State) *State 
 		nl := fc.freshName("maplen")
 		fc.declareConst(nl, "Int")
 		fc.define(sAnd(sx("<=", old, sym(nl)), sx("<=", sym(nl), sx("+", old, "1")), sx(">=", sym(nl), "1")))
-		return st.store(arr, sx("store", st.get(arr), mv.S, sym(nl)))
+		st = st.store(arr, sx("store", st.get(arr), mv.S, sym(nl)))
+		if dom, val, _, scalarV := fc.mapArrs(x.Map.Type(), mv.S); dom != "" {
+			kv := fr.val(x.Key, st)
+			st = st.store(dom, sx("store", st.get(dom), mv.S, sx("store", sx("select", st.get(dom), mv.S), kv.S, "true")))
+			if scalarV {
+				vv := fr.val(x.Value, st)
+				st = st.store(val, sx("store", st.get(val), mv.S, sx("store", sx("select", st.get(val), mv.S), kv.S, vv.S)))
+			}
+		}
+		return st
 	case *ssa.Range:
 		fr.vals[x] = Val{T: x.Type(), S: "0"}
 		return st
@@ -1327,8 +1367,23 @@ func (fr *Frame) lookup(x *ssa.Lookup, b *ssa.BasicBlock, st *State) *State {
 			fc.assume(sImp(sAnd(fr.reach[b], empty), env.equal(res, fc.zeroVal(elemT))), "lookup in an empty map yields the zero value")
 		}
 	}
+	if kindOf(mv.T) == KRef {
+		if dom, val, _, scalarV := fc.mapArrs(x.X.Type(), mv.S); dom != "" {
+			kv := fr.val(x.Index, st)
+			has := sx("select", sx("select", st.get(dom), mv.S), kv.S)
+			res := v
+			if x.CommaOk && len(v.Sub) == 2 {
+				res = v.Sub[0]
+				fc.assume(sImp(fr.reach[b], sEq(v.Sub[1].S, has)), "comma-ok of a map lookup is key presence")
+			}
+			if scalarV {
+				got := sx("select", sx("select", st.get(val), mv.S), kv.S)
+				fc.assume(sImp(fr.reach[b], sEq(res.S, sIte(has, got, fc.zeroVal(res.T).S))), "value of a map lookup")
+			}
+		}
+	}
 	fr.vals[x] = v
-	fc.note("map contents are not modelled beyond emptiness (lookups in non-empty maps return unconstrained values)")
+	fc.note("maps: key presence and scalar values are modelled; iteration order, slice/struct values and exact lengths are not")
 	return st
 }
 
@@ -1580,4 +1635,31 @@ func closureWrites(mc *ssa.MakeClosure, alloc ssa.Value, depth int) bool {
 
 func isPkgLevel(o types.Object) bool {
 	return o.Pkg() != nil && o.Parent() == o.Pkg().Scope()
+}
+
+// Precise map model (besides the length): per map type, dom : ref -> key -> Bool and, for scalar values, val : ref -> key -> V.
+func (fc *FnCtx) mapArrs(mt types.Type, ref string) (dom, val string, ks string, scalarV bool) {
+	m, ok := mt.Underlying().(*types.Map)
+	if !ok {
+		return "", "", "", false
+	}
+	switch kindOf(m.Key()) {
+	case KInt, KStr, KBool, KRef:
+	default:
+		return "", "", "", false
+	}
+	pfx := "G!"
+	if fc.localMaps[ref] {
+		pfx = "L!"
+	}
+	ks = fc.m.scalarSort(m.Key())
+	dom = pfx + "mapdom!" + typeKey(m.Key())
+	fc.regArr(dom, "(Array Int (Array "+ks+" Bool))")
+	switch kindOf(m.Elem()) {
+	case KInt, KBool, KRef, KStr:
+		scalarV = true
+		val = pfx + "mapval!" + typeKey(m.Key()) + "!" + typeKey(m.Elem())
+		fc.regArr(val, "(Array Int (Array "+ks+" "+fc.m.scalarSort(m.Elem())+"))")
+	}
+	return
 }
